@@ -92,6 +92,8 @@ class PlanNet(fn.FakeNet):
         if entry in ('x', 'g'):
             # 'g' on a probe that does not use group exchange: the reply to KEXDH_INIT is unusable
             srv.hostkeys = _Always(('raw', WRONG_TYPE))
+        elif isinstance(hostkeys, _Always):
+            srv.hostkeys = hostkeys          # (an empty dict subclass is falsy: Server() would replace it)
         self.attempt_servers.append(srv)
         return srv
 
